@@ -226,6 +226,15 @@ class Host(object):
             self._reconnection_handler = new_handler
             return old
 
+    def clear_reconnection_handler(self, handler):
+        """
+        Forgets the reconnection handler of this host if it still is
+        `handler`.  Intended for internal use only.
+        """
+        with self.lock:
+            if self._reconnection_handler is handler:
+                self._reconnection_handler = None
+
     def __eq__(self, other):
         if isinstance(other, Host):
             return self.endpoint == other.endpoint
